@@ -50,3 +50,16 @@ MANIFEST = dict(
               "model/implementation correspondence (extracted OCaml vs Go, exhaustive boundary grid for I)",
     design_ref="DESIGN.md §4 C31",
 )
+
+def ignore(m):
+    """An extrinsic that is both out of order and unsolicited may be refused for either reason: the property says when an extrinsic
+    is ACCEPTED, not which error a refused one reports (neutral/C31/round2_O checks 'solicited' first). Ignored iff the transcripts
+    are equal after mapping the two refusal verdicts to one token: same accept/refuse decision, same state dump, same raw keys."""
+    def canon(t):
+        f = t.split(" ", 1)
+        if f and f[0] in ("unsorted", "unneeded"):
+            f[0] = "refused"
+        return " ".join(f)
+    if m["impl"] != m["model"] and canon(m["impl"]) == canon(m["model"]):
+        return "only the refusal reason of a refused preimage extrinsic differs"
+    return None
